@@ -555,8 +555,57 @@ def run_verus(scr, unit, seed=0):
                         break
                 return name
         return "?"
+    def fn_start_and_mode(line):
+        for i in range(min(line, len(lines)) - 1, -1, -1):
+            m = re.match(r"(\s*)(?:#\[[^\]]*\]\s*)*(?:pub(?:\([a-z]+\))?\s+)?(?:open\s+|closed\s+)?(?:broadcast\s+)?(proof\s+|exec\s+|spec\s+)?(?:axiom\s+)?fn\s+(\w+)", lines[i])
+            if m:
+                return i, (m.group(2) or "exec").strip()
+        return 0, "exec"
+
+    def in_proof_block(line):
+        """is the given (1-based) line inside a `proof { .. }` block of an exec function?  (brace walk from the function header; comments and strings are skipped approximately)"""
+        start, mode = fn_start_and_mode(line)
+        if mode != "exec":
+            return False
+        stack = []
+        for i in range(start, min(line, len(lines))):
+            txt = re.sub(r'"(?:[^"\\]|\\.)*"', '""', lines[i].split("//")[0])
+            last = line - 1
+            for mm in re.finditer(r"\bproof\s*\{|\{|\}", txt):
+                tok = mm.group(0)
+                if tok == "}":
+                    if stack:
+                        stack.pop()
+                else:
+                    stack.append(tok.startswith("proof"))
+                if i == last and mm.end() > 0 and False:
+                    break
+            if i == last:
+                break
+        # the error points at the assert: it is a hint if some enclosing opener (before this line's own tokens are fully consumed) is a proof block
+        # recompute the stack up to the START of the error line, then account for a `proof {` opened on the error line itself before the assert
+        stack2 = []
+        for i in range(start, min(line - 1, len(lines))):
+            txt = re.sub(r'"(?:[^"\\]|\\.)*"', '""', lines[i].split("//")[0])
+            for mm in re.finditer(r"\bproof\s*\{|\{|\}", txt):
+                tok = mm.group(0)
+                if tok == "}":
+                    if stack2:
+                        stack2.pop()
+                else:
+                    stack2.append(tok.startswith("proof"))
+        if any(stack2):
+            return True
+        cur = lines[line - 1] if 0 < line <= len(lines) else ""
+        pos = cur.find("assert")
+        return bool(re.search(r"\bproof\s*\{", cur[:pos if pos >= 0 else len(cur)]))
+
     for e in errs:
         e["fn"] = enclosing(e["line"]) if e["line"] else "?"
+        # an `assert` that fails inside a proof block inserted into an extracted (exec) function is a PROOF HINT of /verif, not a contract clause:
+        # its failure means the proof script no longer fits the code (undecided), unless a contract clause of the same function fails too
+        e["hint"] = bool(e["line"]) and e["msg"].startswith("assertion failed") and in_proof_block(e["line"]) \
+            and "verif:obligation" not in (lines[e["line"] - 1] if 0 < e["line"] <= len(lines) else "")
     nonverif = [e for e in errs if not any(k in e["msg"] or k in e["text"] for k in VERIF_ERRS) and "rlimit" not in e["msg"].lower()]
     rlim = [e for e in errs if "rlimit" in e["msg"].lower() or "resource limit" in e["msg"].lower()]
     return dict(unit=unit, text=text, path=path, funcs=funcs, errs=errs, nonverif=nonverif, rlimit_errs=rlim,
